@@ -41,8 +41,6 @@ func consumeSingleTURNFrame(b []byte) (int, error) {
 
 	var datagramSize int
 	switch {
-	case stun.IsMessage(b):
-		datagramSize = int(binary.BigEndian.Uint16(b[2:4])) + stunHeaderSize
 	case ChannelNumber(binary.BigEndian.Uint16(b[0:2])).Valid():
 		datagramSize = int(binary.BigEndian.Uint16(b[channelDataNumberSize:channelDataHeaderSize]))
 		if paddingOverflow := (datagramSize + channelDataPadding) % channelDataPadding; paddingOverflow != 0 {
@@ -50,6 +48,8 @@ func consumeSingleTURNFrame(b []byte) (int, error) {
 		}
 
 		datagramSize += channelDataHeaderSize
+	case stun.IsMessage(b):
+		datagramSize = int(binary.BigEndian.Uint16(b[2:4])) + stunHeaderSize
 	case len(b) < stunHeaderSize:
 		return 0, errIncompleteTURNFrame
 	default:
